@@ -1805,7 +1805,16 @@ impl DtlsInner {
                         } else {
                             (&keys.server_write_key, &keys.server_write_iv)
                         };
-                        let full_seq = ((ctx.epoch as u64) << 48) | ctx.sequence_number;
+                        // Once the handshake is over, record sequence numbers are
+                        // allocated from `write_seq` (shared with `send()`); reusing the
+                        // handshake counter here would repeat the AES-GCM nonce of the
+                        // first application record.
+                        let alert_seq = if matches!(*self.state.lock(), DtlsState::Handshaking) {
+                            ctx.sequence_number
+                        } else {
+                            self.write_seq.fetch_add(1, Ordering::SeqCst)
+                        };
+                        let full_seq = ((ctx.epoch as u64) << 48) | alert_seq;
                         if let Ok(encrypted) = encrypt_record(
                             ContentType::Alert,
                             ProtocolVersion::DTLS_1_2,
@@ -1818,7 +1827,7 @@ impl DtlsInner {
                                 content_type: ContentType::Alert,
                                 version: ProtocolVersion::DTLS_1_2,
                                 epoch: ctx.epoch,
-                                sequence_number: ctx.sequence_number,
+                                sequence_number: alert_seq,
                                 payload: Bytes::from(encrypted),
                             };
                             let mut buf = BytesMut::new();
